@@ -1,6 +1,6 @@
 #!/bin/bash
-# seedregress.sh : re-run the registered quick check of every kept seeded defect (all rounds) and print one line per seed
-for d in /verif/seeded/C*/ /verif/seeded/C*/r2/ /verif/seeded/C*/r3/ /verif/seeded/C*/r4/; do
+# seedregress.sh [ID] : re-run the registered quick check of every kept seeded defect (all rounds) and print one line per seed
+for d in /verif/seeded/${1:-C*}/ /verif/seeded/${1:-C*}/r[2-9]/; do
   [ -f $d/patch.diff ] || continue
   P=$(/venv/bin/python -c "import json;print(json.load(open('$d/meta.json'))['property'])")
   /verif/tools/seedcheck.py $d > /var/tmp/seedregress.tmp 2>&1
